@@ -11,14 +11,26 @@ Import ListNotations.
 From Glb Require Import Lib.Utf8 Lib.GoQuote Lib.TextTok Model.LoggerText Proofs.LoggerTextQ Proofs.LoggerTextP.
 Open Scope N_scope.
 
-(** The theorem.  For every With/WithGroup chain (group names non-empty) and every record -
-    arbitrary bytes (< 256) in message, keys, group names, string-like values; arbitrary
-    attribute trees; stdlib-rendered numbers/durations/times being non-empty bare items -
+(** What the specification deliberately does NOT demand.  The property says a bare item is
+    "free of whitespace, '=' and DQUOTE".  [bare_ok] (Lib/TextTok.v) rejects exactly: ASCII
+    bytes below 0x20 (all ASCII white space and controls, newline included), ' ', '=', DQUOTE
+    and every rune >= 0x80 for which [isSpace] holds.  It ACCEPTS DEL (0x7f), the C1 controls
+    other than U+0085, non-printing runes (U+200B, U+00AD, ...) and invalid UTF-8 bytes in a
+    bare item: none of them can end an item, start a quoted one or break the line.  The Go
+    code quotes those too ([!unicode.IsPrint], [RuneError]); a change that stops doing so
+    still satisfies this specification and shows up as byte drift against the model, not
+    as a violation.
+
+    The theorem.  For every With/WithGroup chain (group names non-empty) and every record -
+    arbitrary bytes (< 256) in message, keys, group names, string-like values and in the
+    source file name; arbitrary attribute trees; stdlib-rendered numbers/durations/times
+    being non-empty bare items; a source path on which the Go loop of appendTextSource yields
+    the path's last two elements ([src_agrees], see [C13_source_cut] and the oddity below) -
     Handle writes [body ++ "\n"], [body] holds no newline, and the tokenizer reads [body]
     back as exactly time, level, [source], msg and the (dotted path, value) pairs in order. *)
 Theorem C13_text_line_faithful :
   forall (isSpace isPrint sp_print : N -> bool) (chain : list deriv) (rec : record),
-    wf_chain isSpace chain = true -> wf_record isSpace rec = true ->
+    wf_chain isSpace chain = true -> wf_record isSpace rec = true -> src_agrees rec = true ->
     exists body,
       handle isSpace isPrint sp_print (derive isSpace isPrint sp_print chain) rec = body ++ [10] /\
       ~ In 10 body /\
@@ -57,6 +69,30 @@ Proof.
 Qed.
 Print Assumptions C13_token_boundary.
 
+(** appendTextSource's byte loop yields the last two path elements on every path with at
+    least two '/' (so [src_agrees] holds for every absolute path of a real source file). *)
+Theorem C13_source_cut :
+  forall pre a b : list N,
+    Forall (fun x => x <> 47) a -> Forall (fun x => x <> 47) b ->
+    source_cut (pre ++ 47 :: a ++ 47 :: b) = a ++ 47 :: b /\
+    last_two (pre ++ 47 :: a ++ 47 :: b) = a ++ 47 :: b.
+Proof. intros pre a b Ha Hb. split; [exact (source_cut_two_slashes pre a b Ha Hb)|exact (last_two_two_slashes pre a b Ha Hb)]. Qed.
+Print Assumptions C13_source_cut.
+
+(** The known oddity of the Go loop, kept in the model as it is in the code: index 0 is never
+    examined and the cut is [f.File[idx+1:]], so a relative path with fewer than two '/' loses
+    its first character.  "a/b.go" -> "/b.go", "main.go" -> "ain.go"; "/b.go" -> "b.go",
+    "" (PC = 0) -> "" and "/srv/a/b.go" -> "a/b.go" are as intended.  Exactly the first two fail
+    [src_agrees]; the line still tokenizes, only the reported file name is wrong. *)
+Example C13_source_oddity :
+  source_cut [97; 47; 98; 46; 103; 111] = [47; 98; 46; 103; 111]
+  /\ last_two [97; 47; 98; 46; 103; 111] = [97; 47; 98; 46; 103; 111]
+  /\ source_cut [109; 97; 105; 110; 46; 103; 111] = [97; 105; 110; 46; 103; 111]
+  /\ source_cut [47; 98; 46; 103; 111] = [98; 46; 103; 111] /\ last_two [47; 98; 46; 103; 111] = [98; 46; 103; 111]
+  /\ source_cut [] = [] /\ last_two [] = []
+  /\ source_cut [47; 115; 114; 118; 47; 97; 47; 98; 46; 103; 111] = [97; 47; 98; 46; 103; 111].
+Proof. vm_compute. repeat split; reflexivity. Qed.
+
 (** ---- non-vacuity: a small concrete oracle (U+0085, U+00A0, U+2028 are spaces; U+0080..U+00A0,
     U+00AD and the spaces do not print) and hostile inputs ---- *)
 Definition ex_space (r : N) : bool := (r =? 133) || (r =? 160) || (r =? 8232).
@@ -67,7 +103,7 @@ Definition ex_chain : list deriv :=
    DAttrs [([113], VStr [34; 255])];                      (* q = DQUOTE + invalid byte 0xff *)
    DGroup [99; 32; 100]].                                 (* group name "c d" *)
 Definition ex_rec : record :=
-  mkRecord [50; 48; 50; 51] LError (Some [109; 32; 97; 47; 120; 61; 46; 103; 111; 58; 55])   (* "m a/x=.go:7" *)
+  mkRecord [50; 48; 50; 51] LError (Some ([47; 115; 47; 109; 32; 97; 47; 120; 61; 46; 103; 111], [55]))   (* "/s/m a/x=.go", "7" *)
     [104; 105; 32; 107; 61; 118; 10; 116; 105; 109; 101; 61; 120]                            (* "hi k=v\ntime=x" *)
     [([107], VStr [97; 10; 98]);                          (* newline in a value *)
      ([], VStr []);                                       (* empty key, empty value *)
@@ -78,8 +114,9 @@ Definition ex_rec : record :=
                              ([101], VGroup [])]);                         (* empty group *)
      ([100], VVerbatim [49; 46; 53; 194; 181; 115])].      (* 1.5µs *)
 
-Example C13_example_wf : wf_chain ex_space ex_chain = true /\ wf_record ex_space ex_rec = true.
-Proof. vm_compute. split; reflexivity. Qed.
+Example C13_example_wf :
+  wf_chain ex_space ex_chain = true /\ wf_record ex_space ex_rec = true /\ src_agrees ex_rec = true.
+Proof. vm_compute. repeat split; reflexivity. Qed.
 
 Example C13_example_line :
   let line := handle ex_space ex_print ex_print (derive ex_space ex_print ex_print ex_chain) ex_rec in
